@@ -1,6 +1,6 @@
 From Coq Require Import List Arith Bool.
 Import ListNotations.
-From SM Require Import Base.Num C17.Model.
+From SM Require Import Base.Num C17.Model C17.Names.
 
 Definition Src := (nat * nat * nat)%type.
 Definition gen (m c t : nat) : Src := (m, c, t).
@@ -30,3 +30,7 @@ Definition check_case (cs : Case) : bool :=
   pairs_eqb (loads outs) obs && Nat.eqb (length (dlls Src s)) nlibs.
 
 Definition check_cases (l : list Case) : list nat := failing (map check_case l).
+
+(* library file names observed in the cache directory against the name model *)
+Definition check_names (l : list (String.string * String.string * String.string * String.string * String.string)) : list nat :=
+  failing (map name_ok l).
